@@ -104,6 +104,12 @@ def gen_flow(repo, read):
                 continue
             if isinstance(s, ast.If) and un(s.test) == "isinstance(e, struct.error)" and all(
                     isinstance(x, ast.Assign) and un(x.targets[0]) == "raised_error" for x in s.body + s.orelse):
+                # the error is built from constant text only: nothing of the user's objects (their repr may raise, or be huge) is
+                # evaluated in the feeder thread before the bookkeeping is done
+                for x in s.body + s.orelse:
+                    v = x.value
+                    if not (isinstance(v, ast.Call) and not v.keywords and all(isinstance(a, ast.Constant) for a in v.args)):
+                        raise Refuse("_on_queue_feeder_error: the error message is no longer constant text", x)
                 out.append("GBuildError")
             elif t.startswith("tb = traceback.format_exception(") or t == "raised_error.__cause__ = _RemoteTraceback(''.join(tb))":
                 continue
@@ -180,7 +186,8 @@ def gen_flow(repo, read):
     forced = []
     for s in wl[0].body:
         t = un(s)
-        if t == "_, work_item = self.pending_work_items.popitem()":
+        if t in ("_, work_item = self.pending_work_items.popitem()",
+                 "try:\n    _, work_item = self.pending_work_items.popitem()\nexcept KeyError:\n    break"):
             forced.append("GPopItem")
         elif "work_item.future.set_exception(ShutdownExecutorError(" in t and (isinstance(s, (ast.Expr, ast.Try, ast.If))):
             forced.append("GSetShutdownError")
